@@ -288,6 +288,7 @@ type instantiator struct {
 	boundMap    map[boundParam]int
 	instances   []*instance
 	instanceMap *container.IntSliceMap[*instance] // [nonterm, boundParam #1, ...] ->
+	sets        map[*TokenSet]*TokenSet           // source set -> its instantiated copy
 }
 
 func (i *instantiator) resolveInstance(context *instance, nonterm int, args []Arg) *instance {
@@ -334,7 +335,15 @@ func (i *instantiator) doSet(set *TokenSet) *TokenSet {
 		}
 		return set
 	}
+	// Named sets may refer to each other (even cyclically): copy every set once.
+	if ret, ok := i.sets[set]; ok {
+		return ret
+	}
 	ret := *set
+	if i.sets == nil {
+		i.sets = make(map[*TokenSet]*TokenSet)
+	}
+	i.sets[set] = &ret
 	ret.Sub = make([]*TokenSet, 0, len(set.Sub))
 	for _, sub := range set.Sub {
 		ret.Sub = append(ret.Sub, i.doSet(sub))
